@@ -47,7 +47,7 @@ def check_unary(ctx, c, Y, tag):
     full = np.array(c['full' if 'full' in c else 'full1'], dtype=float).reshape(n)
     bad = []
     Fd = teneva.full(Y)
-    if not eq(np.asarray(Fd).reshape(n), full):
+    if not (np.asarray(Fd).shape == tuple(n) and eq(np.asarray(Fd), full)):
         bad.append('full')
     I = np.array(list(itertools.product(*[range(k) for k in n])), dtype=int)
     if not eq(teneva.get_many(Y, I), full.reshape(-1)):
@@ -332,3 +332,58 @@ def run(ctx):
             ctx.violation('algebra:program', msg, case=h)
     if not seen:
         raise tlc.TlcError('no program emitted')
+    check_huge(ctx, quick)
+
+
+def check_huge(ctx, quick):
+    """sum / mean / get on rank-1 chains with up to 2^6000 elements (exact values from Stab.tla)"""
+    from fractions import Fraction
+    from . import c16
+    res = tlc.run('Stab', cfg='Stab.cfg', workers=16, timeout=1800)
+    ctx.add_tlc(res, 'Stab: exact sum / mean of rank-1 chains with up to 2^6000 elements')
+    rng = np.random.default_rng(ctx.seed + 9)
+    rows = [r_ for r_ in res.json if r_['d'] >= 2 and r_['sodd'] != 40000 and abs(r_['sodd']) < 30000]
+    rows = [rows[j] for j in rng.permutation(len(rows))[:(150 if quick else 1500)]]
+    for row in rows:
+        Y = c16.build(row['blocks'], 'a')
+        d = row['d']
+        case = {'blocks': row['blocks']}
+        ctx.case(key=('huge', row['blocks']), nontrivial=d >= 64)
+        s_ = teneva.sum(Y)
+        exact = Fraction(row['sodd']) * Fraction(2) ** row['sexp'] if not row['szero'] else Fraction(0)
+        def close(v, ex):
+            if ex == 0:
+                return v == 0
+            if not np.isfinite(v):
+                return False
+            return abs(Fraction(float(v)) - ex) <= Fraction(1, 10**11) * abs(ex)
+        # plain (unstabilised) arithmetic: every partial product along the chain must be representable
+        run_, worst = 0., 0.
+        for bl in row['blocks']:
+            t = abs(sum(bl['a']))
+            step = (np.log2(t) if t > 0 else 0.) + bl['sa']
+            worst = max(worst, abs(run_ + step * bl['cnt']), abs(run_ + step))
+            run_ += step * bl['cnt']
+            if t == 0:
+                break
+        lens = sum(bl['cnt'] * (np.log2(len(bl['a']))) for bl in row['blocks'])
+        if worst >= 1000:
+            continue
+        rep = True
+        if rep:
+            ctx.check(close(s_, exact), 'algebra:sum', 'sum of a rank-1 chain (d = %d) = %r, exact %s * 2^%d' % (d, s_, row['sodd'], row['sexp']), case=case)
+        if row['npow2'] >= 0:
+            em = exact / Fraction(2) ** row['npow2']
+            if True:
+                m_ = teneva.mean(Y)
+                ctx.check(close(m_, em), 'algebra:mean', 'mean of a rank-1 chain with 2^%d elements = %r, exact %s * 2^%d' % (row['npow2'], m_, row['sodd'], row['sexp'] - row['npow2']), case=case)
+        # one entry, exact
+        idx = [int(rng.integers(G.shape[1])) for G in Y]
+        m1, e1 = c16.normal_form(*c16.entry_exp(Y, idx))
+        if m1 == 0 or abs(e1) < 1000:
+            v = teneva.get(Y, idx)
+            ex = m1 * Fraction(2) ** e1
+            ctx.check(close(v, ex), 'algebra:get', 'get on a rank-1 chain (d = %d) = %r, exact %s' % (d, v, float(ex)), case=case)
+        if d <= 3002:
+            sh = teneva.shape(Y)
+            ctx.check(len(sh) == d and int(teneva.size(Y)) == sum(G.size for G in Y), 'algebra:shape', 'shape / size wrong for d = %d' % d, case=case)
